@@ -119,6 +119,13 @@ def model_case(cfg, facts, items):
         elif op == "kill":
             dtbl[b"KILL"] = [QKILL]
             script.append([0, [1, it[1], frame_raw(b"KILL", 0)]])
+        elif op == "twin":
+            script.append([0, [0, it[1], AUTH_OK]])
+            script.append([0, [0, it[2], AUTH_OK]])
+            ckind[it[1]] = ckind[it[2]] = "raw"
+        elif op == "park":
+            dtbl[b"STALL"] = [QSTALL]
+            script.append([0, [1, it[1], frame_raw(b"STALL", 0)]])
         elif op == "stall":
             dtbl[b"STALL"] = [QSTALL]
             script.append([0, [1, it[1], frame_raw(b"STALL", 0)]])
@@ -256,6 +263,10 @@ class Rec:
         self.svc_of = {}          # key -> id of the service instance
         self.peer_of = {}         # key -> peer address of the connection
         self.thread_errors = 0
+        self.config_of = {}       # key -> (peer of the connection's socket, peer its configuration names, its credentials)
+        self.ctor_hold = None     # (reached, go): the next service constructor announces itself and waits
+        self.parked = 0           # exposed_park calls that are waiting
+        self.release = threading.Event()
         self.keep = []            # service instances stay alive: their ids (and their objects' ids) are compared across connections
 
     def on_connect(self, svc, conn):
@@ -268,10 +279,18 @@ class Rec:
             self.conn_of[key] = weakref.ref(conn)
             self.svc_of[key] = id(svc)
             self.keep.append(svc)
+            # whose connection this is: the peer of the socket it runs on (NOT what its configuration says: that is checked against it)
             try:
-                self.peer_of[key] = norm_addr(conn._config["endpoints"][1])
+                real = norm_addr(conn._channel.stream.sock.getpeername())
             except Exception:
-                self.peer_of[key] = None
+                real = None
+            try:
+                told = norm_addr(conn._config["endpoints"][1])
+                cred = conn._config.get("credentials")
+            except Exception:
+                told, cred = None, None
+            self.peer_of[key] = real if real is not None else told
+            self.config_of[key] = (real, told, cred)
 
     def on_disconnect(self, svc, conn):
         with self.lock:
@@ -293,9 +312,19 @@ def make_service(rec):
         def __init__(self):
             self.cnt = 0
             self.objs = []
+            hold, rec.ctor_hold = rec.ctor_hold, None
+            if hold is not None:
+                hold[0].set()
+                hold[1].wait(BOUND)
 
         def on_connect(self, conn):
             rec.on_connect(self, conn)
+
+        def exposed_park(self):
+            with rec.lock:
+                rec.parked += 1
+            rec.release.wait(BOUND)
+            return 1
 
         def on_disconnect(self, conn):
             rec.on_disconnect(self, conn)
@@ -328,7 +357,11 @@ def toy_authenticator(sock):
         got += d
     if got != b"OKAY":
         raise AuthenticationError("wrong word")
-    return sock, "okay"
+    try:
+        cred = repr(norm_addr(sock.getpeername()))
+    except OSError:
+        cred = "?"
+    return sock, cred
 
 
 def wrapping_authenticator(sock):
@@ -506,6 +539,9 @@ class History:
 
     def stop(self):
         import shutil
+        self.rec.release.set()
+        if self.rec.ctor_hold is not None:
+            self.rec.ctor_hold[1].set()
         for cl in self.clients.values():
             self._hard_close(cl)
         try:
@@ -701,8 +737,8 @@ class History:
 
     def check_residue(self, idx):
         """no sockets, descriptors or table entries for departed clients (evaluated when the server's threads have settled)"""
-        if self.tainted or self.job.get("probe") == "c16":
-            return          # C16's runs check C16's statement only
+        if self.tainted:
+            return
         if self.workers_all_blocked():
             return          # no worker is free (C16's finding F7; c17_no_residue carries the same guard)
         kind = self.cfg["kind"]
@@ -795,6 +831,7 @@ class History:
         hung = t.is_alive()
         if after_close is not None:
             after_close()
+        self.rec.release.set()          # handlers the harness had parked may go on now
         if why == "race" and not hung:
             # the accept that was held inside its window now finishes; what it registered on the closed server is the evidence
             wait_until(lambda: (not self.thread.is_alive()) or list(srv.clients) or (kind == "pool" and dict(srv.fd_to_conn)), self.B())
@@ -1168,6 +1205,76 @@ class History:
         self.replies.append(["kill", got])
         self.settle(idx)
 
+    def do_twin(self, idx, a, b):
+        """two clients connect at the same time: the first one's worker is held inside the service constructor (between the server's
+        preparation of the connection's configuration and Connection.__init__) until the second one's connection is set up"""
+        reached, go = threading.Event(), threading.Event()
+        self.rec.ctor_hold = (reached, go)
+        cls = []
+        for cid in (a, b):
+            cl = Client(cid, "raw")
+            self.clients[cid] = cl
+            cl.auth = AUTH_OK
+            s = self._raw_connect(5.0)
+            if s is None:
+                cl.gone = True
+            else:
+                cl.sock, cl.connected = s, True
+                self.addr_cid[norm_addr(s.getsockname())] = cid
+                if self.cfg["auth"]:
+                    try:
+                        s.sendall(b"OKAY")
+                    except OSError:
+                        pass
+            cls.append(cl)
+            if cid == a:
+                reached.wait(self.B())           # a's worker is inside the constructor
+            else:
+                def up():
+                    self.attribute()
+                    return cl.accepted
+                wait_until(up, self.B())         # b's connection exists
+        go.set()
+        self.rec.ctor_hold = None
+        self.replies.append(["twin"])
+        self.settle(idx)
+        self.check_configs(idx)
+
+    def check_configs(self, idx):
+        """every connection was created with ITS OWN configuration: the endpoints and credentials of the socket it runs on"""
+        with self.rec.lock:
+            cf = dict(self.rec.config_of)
+        for key, (real, told, cred) in sorted(cf.items()):
+            if real is None:
+                continue
+            bad = told != real or (self.cfg["auth"] and cred != repr(real))
+            if bad:
+                self.violation("connection-configured-for-another-client:%s" % self.cfg["kind"], idx,
+                               observed={"socket peer": repr(real), "config endpoints peer": repr(told), "config credentials": cred},
+                               expected="the connection's own peer and credentials",
+                               what="a connection set up while another client was connecting carries that other client's endpoints / credentials in its configuration")
+                self.tainted = True
+                return
+
+    def do_park(self, idx, cid):
+        """the client calls a method that does not return until the harness says so: its worker is busy, not reading the socket"""
+        cl = self.clients[cid]
+        with self.rec.lock:
+            before = self.rec.parked
+        if cl.sock is not None:
+            try:
+                root = self.real_oid((cid if self.cfg["cls"] else 0, 0))
+                cl.seq += 1
+                args = (H["CALLATTR"], (R.LABEL_TUPLE, ((R.LABEL_LOCAL_REF, root), (R.LABEL_VALUE, "park"), (R.LABEL_VALUE, ()), (R.LABEL_VALUE, ()))))
+                cl.sock.sendall(R.frame(R.msg(R.MSG_REQUEST, cl.seq, args), False))
+            except OSError:
+                pass
+        wait_until(lambda: self.rec.parked > before, self.B())
+        self.stalling.add(cid)
+        self.sent[cid] = self.sent.get(cid, b"")
+        self.replies.append(["park", self.rec.parked > before])
+        self.settle(idx)
+
     def do_stall(self, idx, cid):
         """the client makes the server ask IT something (unsolicited reply with a remote reference -> nested HANDLE_INSPECT) and never answers"""
         cl = self.clients[cid]
@@ -1383,6 +1490,10 @@ class History:
                     self.do_kill(idx, it[1])
                 elif op == "stall":
                     self.do_stall(idx, it[1])
+                elif op == "twin":
+                    self.do_twin(idx, it[1], it[2])
+                elif op == "park":
+                    self.do_park(idx, it[1])
                 elif op == "emfile":
                     self.do_emfile(idx, it[1])
                 elif op == "race":
@@ -1919,6 +2030,16 @@ def witnesses():
             out.append((dict(base), [["connect", 1, "raw", 0], ["send", 1, struct.pack(">IB", 100, 0).hex()], ["leave", 1, "rst"], ["srvclose"]]))
     out.append(({"kind": "oneshot", "transport": "tcp", "auth": False, "cls": True, "nw": 1, "batch": 1},
                 [["connect", 1, "raw", 0], ["connect", 2, "raw", 0], ["req", 1, QROOT, None, 0], ["leave", 1, "fin"], ["connect", 3, "raw", 0], ["srvclose"]]))
+    # close() with several clients connected, one or two of which have vanished (reset) while their worker was busy in a handler:
+    # shutting THEIR sockets down fails; everybody else must still be disconnected
+    for n, gone in ((3, [2]), (4, [1]), (4, [2, 3]), (5, [3]), (5, [1, 4]), (6, [2]), (6, [5]), (3, [1])):
+        its = []
+        for c in range(1, n + 1):
+            its += [["connect", c, "raw", 0], ["req", c, QROOT, None, 0]]
+        for c in gone:
+            its += [["park", c], ["leave", c, "rst"]]
+        its += [["srvclose"], ["srvclose"]]
+        out.append(({"kind": "threaded", "transport": "tcp", "auth": False, "cls": True, "nw": 2, "batch": 10}, its))
     for kind in ("threaded", "pool", "oneshot"):
         for transport in ("tcp", "unix"):
             base = {"kind": kind, "transport": transport, "auth": True, "cls": True, "nw": 2, "batch": 10, "wrap": True}
@@ -2013,8 +2134,12 @@ def well_behaved(cfg, items, j):
             seen_connect = True
             if cfg["auth"] and o[3] != AUTH_OK:
                 return False
-        if o[0] in ("send", "kill", "stall") and o[1] == c:
+        if o[0] in ("send", "kill", "stall", "park") and o[1] == c:
             return False
+        if o[0] == "twin" and c in (o[1], o[2]):
+            seen_connect = True
+        if o[0] == "twin" and first is None:
+            first = o[1]
         if o[0] == "leave" and o[1] == c:
             return False
     if it[0] == "connect":
@@ -2030,7 +2155,7 @@ def well_behaved(cfg, items, j):
 def clean_history(items):
     """nothing in it explains an exception in a server thread: only well-formed requests, graceful leaves, no close()"""
     for it in items:
-        if it[0] in ("send", "kill", "stall", "emfile", "race", "srvclose", "hostile"):
+        if it[0] in ("send", "kill", "stall", "park", "emfile", "race", "srvclose", "hostile"):
             return False
         if it[0] == "leave" and it[2] == "rst":
             return False
@@ -2080,6 +2205,8 @@ def evaluate(ctx, label, batch, model, facts, farm, probe=None, nontrivial_fn=No
                 q, st = mouts[i][s]
                 if not q:
                     fuel_out.append((cfg_of[i], j))
+                if job["items"][j][0] == "park":
+                    starved = True       # a worker busy inside a handler does not see its client leave until the handler returns
                 if job["items"][j][0] == "emfile" and not facts[5]:
                     starved = True       # the server shuts itself down while the client it just accepted is being set up: who wins is thread timing
                 if job["items"][j][0] == "race" and not facts[6]:
